@@ -480,7 +480,8 @@ func C14(ctx *core.Ctx) error {
 	cov.Set("vendored_keys_not_matching_todays_generator", fixtureDefects)
 	cov.Set("drift", col.drift)
 	cov.Set("phase_wall_s", phase)
-	cov.Set("exhaustive", "toy domain: yes (see toy_keys); real size and key generation: sampled")
+	cov.Set("exhaustive", false)
+	cov.Set("exhaustive_note", "toy domain: yes (see toy_keys); real size and key generation: sampled")
 	return ctx.WriteEvidence("model_checking",
 		"evaluations = calls of the real EncryptAndReturnRandomness / Encrypt / Decrypt / HomoAdd / HomoMult (toy keys 15, 35[, 77] over the whole domain: every plaintext with every unit, "+
 			"every ciphertext of a window around [0,N^2), scalar x ciphertext and ciphertext x ciphertext pairs, sessions; vendored 2048 bit keys and freshly generated keys: sampled classes) "+
